@@ -12,21 +12,22 @@ open Model
 the current source of `Session::handle_rx` is the model's `sessionHandleRx` (which `C07.*` are about): in
 particular every early exit (parser rejects, oversized on RXC, `next_fcnt_down` refuses, MIC does not
 verify) returns `NoUpdate` with the session, configuration, region, buffer and downlink queue it was
-given; see `C05.tieA_handle_rx_accept`.  Proved in `Props/TieA/HandleRx.lean`.  Builder S: stated for the regenerated
+given; see `C05.tieA_handle_rx_accept`.  Builder X: for downlink-typed frames (`hup`); an uplink-typed frame is the
+further early exit `tieA_handle_rx_uplink_typed` (a rejected frame for C07: nothing changes).  Proved in `Props/TieA/HandleRx.lean`.  Builder S: stated for the regenerated
 `handle_downlink_macs` (`TieA.Rx.Full.genOps`) on every command stream, no simulation hypothesis
 (`Props/TieA/HandleRxFull.lean`). -/
 theorem tieA_handle_rx_accept
     (D : Int) (gs : Gen.SessionRx.Session) (rs : RegionState) (g : Gen.SessionRx.Configuration)
     (rx : Gen.SessionRx.RadioBuffer) (dl : List Gen.SessionRx.Downlink) (maxp snr : Int) (ign : Bool)
     (e : Gen.SessionRx.EncryptedDataPayload)
-    (hparse : rx.as_mut_for_read.parse = some e)
+    (hparse : rx.as_mut_for_read.parse = some e) (hup : e.is_uplink = false)
     (hw : TieA.Rx.SessWF gs) (hmax : 0 ≤ maxp ∧ maxp ≤ 255) (hwire : 0 ≤ e.fhdr.fcnt)
     (hdec : ∀ f, Gen.SessionRx.next_fcnt_down gs.fcnt_down e.fhdr.fcnt = some f → e.validate_mic (TieA.Rx.nwkOf gs) f = true →
       ∃ d, rx.as_mut_for_read.decrypt_in_place (some (TieA.Rx.nwkOf gs)) (some (TieA.Rx.appOf gs)) f = some d ∧ TieA.Rx.DecWF TieA.Rx.Full.Stream d) :
     (@Gen.SessionRx.Session.handle_rx RegionState TieA.Rx.Full.genOps D gs rs g rx dl maxp snr ign).bind
         (fun out => (TieA.Rx.respOf out.1).map (fun r => (r, TieA.Rx.sessOf out.2.1, out.2.2.1, TieA.Rx.cfgOf out.2.2.2.1, out.2.2.2.2.2.map TieA.Rx.dlOf)))
       = (sessionHandleRx (TieA.Rx.sessOf gs) (TieA.Rx.cfgOf g) rs (TieA.Rx.dataOf gs e (TieA.Rx.decOf gs rx e)) maxp.toNat snr ign).toOption.map (TieA.Rx.expect dl D) :=
-  TieA.Rx.Full.handle_rx_full D gs rs g rx dl maxp snr ign e hparse hw hmax hwire hdec
+  TieA.Rx.Full.handle_rx_full D gs rs g rx dl maxp snr ign e hparse hup hw hmax hwire hdec
 
 /-- builder N — a buffer the data-frame parser rejects: `NoUpdate`, every output is the input -/
 theorem tieA_handle_rx_unparsed [Gen.SessionRx.MacOps RegionState]
@@ -36,9 +37,23 @@ theorem tieA_handle_rx_unparsed [Gen.SessionRx.MacOps RegionState]
     Gen.SessionRx.Session.handle_rx D gs rs g rx dl maxp snr ign = some (.NoUpdate, gs, rs, g, rx, dl) :=
   TieA.Rx.handle_rx_unparsed D gs rs g rx dl maxp snr ign hparse
 
+/-- builder X — a buffer the parser accepts whose MType is an UPLINK type (`is_uplink()`; the device's own uplink
+echoed back, another device's uplink, any frame MIC'd with Dir = 0 under the session key): `NoUpdate`, every output is
+the input — whatever its length, wire counter and MIC, in a Class A window (no `rx2_complete`) and outside.  For the
+model such a buffer is NOT a data-frame view (`RxView.garbage`, the reference codec's `g`), exactly like a buffer the
+parser rejects: `sessionHandleRx` is only ever applied to downlink-typed frames (`hup` of `tieA_handle_rx_accept`). -/
+theorem tieA_handle_rx_uplink_typed [Gen.SessionRx.MacOps RegionState]
+    (D : Int) (gs : Gen.SessionRx.Session) (rs : RegionState) (g : Gen.SessionRx.Configuration)
+    (rx : Gen.SessionRx.RadioBuffer) (dl : List Gen.SessionRx.Downlink) (maxp snr : Int) (ign : Bool)
+    (e : Gen.SessionRx.EncryptedDataPayload)
+    (hparse : rx.as_mut_for_read.parse = some e) (hup : e.is_uplink = true) :
+    Gen.SessionRx.Session.handle_rx D gs rs g rx dl maxp snr ign = some (.NoUpdate, gs, rs, g, rx, dl) :=
+  TieA.Rx.handle_rx_uplink_typed D gs rs g rx dl maxp snr ign e hparse hup
+
 /-- builder S: the two former hypotheses are theorems for the regenerated `handle_downlink_macs` -/
 example : @TieA.Rx.NextLowerOk TieA.Rx.Full.genOps ∧ @TieA.Rx.MacsOk TieA.Rx.Full.genOps TieA.Rx.Full.Stream := TieA.Rx.Full.genOps_ok
 
 #print axioms tieA_handle_rx_accept
 #print axioms tieA_handle_rx_unparsed
+#print axioms tieA_handle_rx_uplink_typed
 end C07
